@@ -4,7 +4,7 @@ pid=sys.argv[1]; n=int(sys.argv[2]) if len(sys.argv)>2 else 12
 g=collections.OrderedDict()
 for f in sorted(glob.glob(f'/verif/evidence/replays/{pid}-*.json'), key=lambda x:int(re.findall(r'-(\d+)\.json',x)[0])):
     r=json.load(open(f)); sk=r['record']
-    sh=' '.join(f"{l[0]}{'' if l[1]=='A' else 'b'}{l[2]}{('x'+l[3]) if len(l)>3 else ''}" for l in sk['lines'])
+    sh=' '.join(f"{l[0]}{'' if l[1]=='A' else 'b'}{l[2]}{('x'+str(l[3])) if len(l)>3 and l[3] else ''}" for l in sk['lines'])
     ob=re.sub(r'\[.*\]','',r['obligation'])
     g.setdefault(ob,[]).append((f.split('/')[-1],r['obligation'],sh,sk['opts'],(r['failed_atoms'] or [r['why']])[:3], sk['values']))
 for ob,v in g.items():
